@@ -319,6 +319,16 @@ pub fn fci_static(f: &FciSpec) -> FciHolder<'static> {
 }
 
 impl<'a> FciHolder<'a> {
+    /// the FCI builder used directly as a writer (every FCI builder implements `RtcpPacketWriter`)
+    pub fn write_into(&self, buf: &mut [u8]) -> Result<usize, RtcpWriteError> {
+        match self {
+            FciHolder::Nack(b) => b.write_into(buf),
+            FciHolder::Pli(b) => b.write_into(buf),
+            FciHolder::Sli(b) => b.write_into(buf),
+            FciHolder::Rpsi(b) => b.write_into(buf),
+            FciHolder::Fir(b) => b.write_into(buf),
+        }
+    }
     pub fn as_dyn(&'a self) -> &'a dyn FciBuilder<'a> {
         match self {
             FciHolder::Nack(b) => b,
